@@ -152,7 +152,7 @@ fn exec<L: LangInterpreter>(l: &L, case: &Case, stats: &mut Stats) -> RunResult 
         let log = Log::new();
         log.crash_at.set(case.abort_crash_at);
         let r = guarded(|| {
-            let src = SimSource { toks: &toks, next: 0, log: &log };
+            let src = SimSource { toks: &toks, next: 0, log: &log, exact_size: false };
             log.in_request.set(true);
             let mut it = find_numbers_iter(src, l, thr);
             let mut n = 0;
